@@ -217,8 +217,15 @@ def gen_document_case(rng):
         which = rng.choice(["group_by", "page_by", "subline_by"])
         cols = ["N0", "N1"][:rng.randint(1, 2)]
         cols[rng.randrange(len(cols))] = rng.choice(["missing", "n0", "N9", ""])
-        d.update(field=which, bad=cols)
-        return {"cls": "RTFDocument", "doc": {"df": 3, "body": {which: cols}}, "desc": d, "n": 2,
+        # the column names as a list, a tuple or (one name) a bare string; sometimes next to another, valid,
+        # grouping option
+        form = rng.choice(["list", "list", "tuple", "tuple", "str"])
+        body = {which: cols}
+        other = rng.choice([k for k in ("group_by", "page_by", "subline_by") if k != which])
+        if rng.random() < 0.3:
+            body[other] = ["N2"]
+        d.update(field=which, bad=cols, form=form)
+        return {"cls": "RTFDocument", "doc": {"df": 3, "body": body, "form": form}, "desc": d, "n": 2,
                 "expect": "ValueError"}
     if r < 0.55:
         d.update(field="df+figure")
@@ -251,7 +258,13 @@ def construct(case, figpath):
         if "df" in dd:
             kw["df"] = df(dd["df"])
         if "body" in dd:
-            kw["rtf_body"] = rtf.RTFBody(**dd["body"])
+            bkw = dict(dd["body"])
+            for k, v in list(bkw.items()):
+                if isinstance(v, list) and dd.get("form") == "tuple":
+                    bkw[k] = tuple(v)
+                elif isinstance(v, list) and dd.get("form") == "str" and len(v) == 1:
+                    bkw[k] = v[0]
+            kw["rtf_body"] = rtf.RTFBody(**bkw)
         if dd.get("figure"):
             kw["rtf_figure"] = rtf.RTFFigure(figures=figpath)
         if "dfs" in dd:
